@@ -115,9 +115,11 @@ pub enum Api {
     WriteFmtLiteral,
     /// one `write!` with a short fragment, a large one and the rest
     WriteFmtBig,
+    /// one `write!` whose first and last characters are `char` arguments (they reach the stream through `write_char`)
+    WriteFmtChars,
 }
 pub const APIS: [Api; 4] = [Api::Write, Api::WriteAll, Api::WriteFmt, Api::WriteVectored];
-pub const ALL_APIS: [Api; 6] = [Api::Write, Api::WriteAll, Api::WriteFmt, Api::WriteVectored, Api::WriteFmtLiteral, Api::WriteFmtBig];
+pub const ALL_APIS: [Api; 7] = [Api::Write, Api::WriteAll, Api::WriteFmt, Api::WriteVectored, Api::WriteFmtLiteral, Api::WriteFmtBig, Api::WriteFmtChars];
 
 pub const LITERALS: [&str; 5] = [
     "status: \x1b[32mall good\x1b[0m (42 items)\n",
@@ -155,6 +157,7 @@ pub struct Run<'a> {
 }
 
 pub const SIG_F14: &str = "c18:write:short-console-write-reported-as-consumed";
+pub const SIG_F16: &str = "c18:write:retry-after-interrupted";
 
 fn accepted_cells(calls: &[ConsoleCall]) -> Vec<Cell> {
     let mut v = vec![];
@@ -192,7 +195,7 @@ fn first_cell_diff(a: &[Cell], b: &[Cell]) -> String {
     format!("lengths differ: console got {} bytes, expected {}", a.len(), b.len())
 }
 
-pub fn run_history(run: &Run<'_>, st: Option<&mut Stats>) -> Result<(), (String, String)> {
+pub fn run_history(run: &Run<'_>, mut st: Option<&mut Stats>) -> Result<(), (String, String)> {
     let console = Console::default();
     console.0.borrow_mut().script = run.script.to_vec();
     let mut stream = WinconStream::new(console.clone());
@@ -202,10 +205,14 @@ pub fn run_history(run: &Run<'_>, st: Option<&mut Stats>) -> Result<(), (String,
     let chunks = gen::split_at_cuts(run.input, run.cuts);
     let mut aborted = false;
     let mut seen_calls = 0usize;
-    for chunk in chunks {
+    'chunks: for chunk in chunks {
         let mut want = vec![];
         let mut trial = refs.clone();
         trial.feed(chunk, &mut want);
+        // cells handed over by attempts of this chunk that ended in Interrupted and were retried by the caller
+        let mut carried: Vec<Cell> = vec![];
+        let mut retries = 0u32;
+        loop {
         let r: Result<usize, io::Error> = match run.api {
             Api::Write => stream.write(chunk),
             Api::WriteVectored => {
@@ -223,7 +230,14 @@ pub fn run_history(run: &Run<'_>, st: Option<&mut Stats>) -> Result<(), (String,
                 let b = floor_boundary(s, s.len() - (s.len() / 16).min(7));
                 write!(stream, "{}{}{}", &s[..a], &s[a..b], &s[b..]).map(|_| chunk.len())
             }
-            Api::WriteFmt | Api::WriteFmtLiteral | Api::WriteFmtBig => match std::str::from_utf8(chunk) {
+            Api::WriteFmtChars if std::str::from_utf8(chunk).map_or(false, |s| s.chars().count() >= 2) => {
+                let s = std::str::from_utf8(chunk).unwrap();
+                let first = s.chars().next().unwrap();
+                let last = s.chars().last().unwrap();
+                let mid = &s[first.len_utf8()..s.len() - last.len_utf8()];
+                write!(stream, "{first}{mid}{last}").map(|_| chunk.len())
+            }
+            Api::WriteFmt | Api::WriteFmtLiteral | Api::WriteFmtBig | Api::WriteFmtChars => match std::str::from_utf8(chunk) {
                 Ok(s) => {
                     let mut mid = s.len() / 2;
                     while !s.is_char_boundary(mid) {
@@ -247,7 +261,7 @@ pub fn run_history(run: &Run<'_>, st: Option<&mut Stats>) -> Result<(), (String,
             Step::WouldBlock => Some(ErrorKind::WouldBlock),
             Step::Other => Some(ErrorKind::Other),
             Step::Interrupted if matches!(run.api, Api::Write | Api::WriteVectored) => Some(ErrorKind::Interrupted),
-            Step::Accept(0) if !c.data.is_empty() && matches!(run.api, Api::WriteAll | Api::WriteFmt | Api::WriteFmtLiteral | Api::WriteFmtBig) => Some(ErrorKind::WriteZero),
+            Step::Accept(0) if !c.data.is_empty() && matches!(run.api, Api::WriteAll | Api::WriteFmt | Api::WriteFmtLiteral | Api::WriteFmtBig | Api::WriteFmtChars) => Some(ErrorKind::WriteZero),
             _ => None,
         });
         match r {
@@ -262,7 +276,18 @@ pub fn run_history(run: &Run<'_>, st: Option<&mut Stats>) -> Result<(), (String,
                 let mut want_n = vec![];
                 let mut trial_n = refs.clone();
                 trial_n.feed(&chunk[..n], &mut want_n);
-                if !cells_eq(&got, &want_n, run.styles) {
+                if retries > 0 {
+                    // the standard protocol: a write that failed with Interrupted is retried with the same buffer, so
+                    // everything the failed attempts handed over counts
+                    let mut all = carried.clone();
+                    all.extend_from_slice(&got);
+                    if !cells_eq(&all, &want_n, run.styles) {
+                        return Err((
+                            SIG_F16.into(),
+                            format!("write failed with Interrupted {retries} time(s) and was retried with the same buffer; over all attempts the console accepted {} but the buffer denotes {}: {}", show_cells(&all), show_cells(&want_n), first_cell_diff(&all, &want_n)),
+                        ));
+                    }
+                } else if !cells_eq(&got, &want_n, run.styles) {
                     if matches!(run.api, Api::Write | Api::WriteVectored) && short && n == chunk.len() && want_n.len() > got.len() && cells_eq(&got, &want_n[..got.len()], run.styles) {
                         return Err((
                             SIG_F14.into(),
@@ -280,23 +305,43 @@ pub fn run_history(run: &Run<'_>, st: Option<&mut Stats>) -> Result<(), (String,
                     refs = trial_n;
                     expected.extend_from_slice(&want_n);
                     aborted = true;
-                    break;
+                    break 'chunks;
                 }
                 refs = trial;
                 expected.extend_from_slice(&want);
+                break;
             }
             Err(e) => {
                 match fatal {
                     Some(k) if k == e.kind() => {}
                     other => return Err((format!("c18:{tag}:error-kind"), format!("returned Err({:?}) but the console writer's fault was {:?}", e.kind(), other))),
                 }
-                if got.len() > want.len() || !cells_eq(&got, &want[..got.len()], run.styles) {
+                if retries > 0 {
+                    let mut all = carried.clone();
+                    all.extend_from_slice(&got);
+                    if all.len() > want.len() || !cells_eq(&all, &want[..all.len()], run.styles) {
+                        return Err((
+                            SIG_F16.into(),
+                            format!("write failed with Interrupted {retries} time(s) and was retried with the same buffer; over all attempts the console accepted {}, not a prefix of {}", show_cells(&all), show_cells(&want)),
+                        ));
+                    }
+                } else if got.len() > want.len() || !cells_eq(&got, &want[..got.len()], run.styles) {
                     return Err((format!("c18:{tag}:delivery-not-prefix"), format!("failed call handed over {}, not a prefix of {}", show_cells(&got), show_cells(&want))));
                 }
+                if e.kind() == ErrorKind::Interrupted && matches!(run.api, Api::Write | Api::WriteVectored) && retries < 3 {
+                    carried.extend_from_slice(&got);
+                    retries += 1;
+                    if let Some(st) = st.as_deref_mut() {
+                        st.count("writes_retried_after_interrupted");
+                    }
+                    continue;
+                }
+                expected.extend_from_slice(&carried);
                 expected.extend_from_slice(&got);
                 aborted = true;
-                break;
+                break 'chunks;
             }
+        }
         }
     }
     let returned = stream.into_inner();
@@ -377,6 +422,77 @@ pub const SHORT_INPUTS: [&str; 16] = [
     "ab\x1b[36mcd\x1b[46mef\x1b[0mgh",
 ];
 
+/// (stream, written before lock(), written through the guard)
+pub const LOCK_CASES: [(&str, &[u8], &[u8]); 6] = [
+    ("stdout", b"A\x1b[31m", b"RED\x1b[0m.\n"),
+    ("stdout", b"x\x1b[3", b"2mGREEN\x1b[39m!\n"),
+    ("stdout", b"plain ", b"text\n"),
+    ("stderr", b"w\x1b[1;33;44", b"mwarn\x1b[0m: \xc3\xa9\n"),
+    ("stderr", b"\x1b[38;5;12mblue \xe6\xbc", b"\xa2 more\x1b[m\n"),
+    ("stderr", b"t\x1b]0;ti", b"tle\x07\x1b[92mok\n"),
+];
+
+/// Body of the child (`vh c18-lock <case>`): the legacy-console stream over the real standard stream (on this platform
+/// its console calls come out as ANSI codes), the first part written before `lock()`, the rest through the guard.
+pub fn child_lock(args: &[String]) -> i32 {
+    let k: usize = args.first().and_then(|s| s.parse().ok()).unwrap_or(0) % LOCK_CASES.len();
+    let (stream, a, b) = LOCK_CASES[k];
+    let r = if stream == "stdout" {
+        let mut s = WinconStream::new(std::io::stdout());
+        s.write_all(a).and_then(|_| s.flush()).and_then(|_| {
+            let mut l = s.lock();
+            l.write_all(b).and_then(|_| l.flush())
+        })
+    } else {
+        let mut s = WinconStream::new(std::io::stderr());
+        s.write_all(a).and_then(|_| s.flush()).and_then(|_| {
+            let mut l = s.lock();
+            l.write_all(b).and_then(|_| l.flush())
+        })
+    };
+    if r.is_ok() {
+        0
+    } else {
+        4
+    }
+}
+
+/// `lock()` carries the colour in effect and a sequence / character in progress over to the guard.
+pub fn check_lock_case(k: usize) -> Result<usize, (String, String)> {
+    let (stream, a, b) = LOCK_CASES[k % LOCK_CASES.len()];
+    let exe = std::env::current_exe().map_err(|e| ("c18:harness".to_string(), e.to_string()))?;
+    let out = std::process::Command::new(exe).args(["c18-lock", &k.to_string()]).stdin(std::process::Stdio::null()).output().map_err(|e| ("c18:harness".to_string(), e.to_string()))?;
+    if !out.status.success() {
+        return Err(("c18:lock:child-died".into(), format!("the child ended with {:?}", out.status)));
+    }
+    let got_bytes = if stream == "stdout" { &out.stdout } else { &out.stderr };
+    let mut want: Vec<Cell> = vec![];
+    let mut r = RefRuns::new();
+    r.feed(a, &mut want);
+    r.feed(b, &mut want);
+    // what the pipe shows: every character with the 16-colour foreground / background in effect
+    let (chars, _) = refmodel::sgr::interpret(got_bytes, UlMode::Select);
+    let p16 = |c: Option<Col>| match c {
+        Some(Col::P16(n)) => Some(n),
+        Some(Col::Idx(n)) if n < 16 => Some(n),
+        _ => None,
+    };
+    let mut got: Vec<Cell> = vec![];
+    let mut buf = [0u8; 4];
+    for (c, st) in &chars {
+        for x in c.encode_utf8(&mut buf).as_bytes() {
+            got.push((*x, p16(st.fg), p16(st.bg)));
+        }
+    }
+    if got != want {
+        return Err((
+            "c18:lock:state-lost".into(),
+            format!("{stream}: {:?} written, lock(), {:?} written through the guard: the pipe shows {}, expected {} ({})", show(a), show(b), show_cells(&got), show_cells(&want), first_cell_diff(&got, &want)),
+        ));
+    }
+    Ok(want.len())
+}
+
 pub fn run(cfg: &Cfg) -> Stats {
     let (depth, ntext, items, nhostile) = match cfg.tier {
         Tier::Tiny => (1u32, 20u64, 10u64, 10u64),
@@ -394,7 +510,7 @@ pub fn run(cfg: &Cfg) -> Stats {
             let input = SHORT_INPUTS[(idx % SHORT_INPUTS.len() as u64) as usize].as_bytes();
             gen::enum_decode(idx / SHORT_INPUTS.len() as u64, STEPS.len() as u64, &mut digits);
             let script: Vec<Step> = digits.iter().map(|d| STEPS[*d]).collect();
-            for api in APIS {
+            for api in [Api::Write, Api::WriteAll, Api::WriteFmt, Api::WriteVectored, Api::WriteFmtChars] {
                 let run = Run { input, cuts: &[], script: &script, api, styles: true };
                 eval(&run, &mut st, true);
                 if input.len() > 2 {
@@ -480,9 +596,13 @@ pub fn run(cfg: &Cfg) -> Stats {
             let data = gen::gen_sgr_text(&mut rng, SgrOpts::default(), items, &[]);
             let chunker = *rng.pick(&[Chunker::Whole, Chunker::Single, Chunker::Random(7), Chunker::Random(50), Chunker::Fixed(4)]);
             let cuts = gen::chunk_cuts(&mut rng, data.len(), chunker);
-            let api = if rng.chance(1, 6) { Api::WriteFmtBig } else { APIS[rng.below(4) as usize] };
+            let api = match rng.below(8) {
+                0 => Api::WriteFmtBig,
+                1 => Api::WriteFmtChars,
+                _ => APIS[rng.below(4) as usize],
+            };
             let cuts = match (api, std::str::from_utf8(&data)) {
-                (Api::WriteFmt | Api::WriteFmtBig, Ok(s)) => gen::cuts_to_char_boundaries(s, &cuts),
+                (Api::WriteFmt | Api::WriteFmtBig | Api::WriteFmtChars, Ok(s)) => gen::cuts_to_char_boundaries(s, &cuts),
                 _ => cuts,
             };
             let script: Vec<Step> = if rng.chance(1, 2) {
@@ -516,6 +636,18 @@ pub fn run(cfg: &Cfg) -> Stats {
             eval(&run, &mut st, false);
             i += n;
         }
+        // lock() on the standard-stream variants (child processes)
+        if cfg.tier != Tier::Tiny && shard == 0 {
+            for k in 0..LOCK_CASES.len() {
+                st.eval();
+                st.nontrivial_enum();
+                match vcore::guarded(|| check_lock_case(k)) {
+                    Ok(Ok(n)) => st.add("cells_compared_across_lock", n as u64),
+                    Ok(Err((sig, msg))) => st.viol(&sig, msg, Case::new("c18-lock").n(k as i64)),
+                    Err(p) => st.viol("c18:lock:panic", format!("panicked: {p}"), Case::new("c18-lock").n(k as i64)),
+                }
+            }
+        }
         // hostile streams: text and no-escape rule only
         let mut i = shard;
         while i < nhostile {
@@ -528,14 +660,22 @@ pub fn run(cfg: &Cfg) -> Stats {
         }
         st
     });
-    st.exhaustive_parts.push(format!("all console scripts of length <= {depth} over 8 step kinds x {} short inputs x 4 write APIs x (whole | one rotating cut); the same scripts x {} literal formatted writes; text runs of 2^k-2..2^k+2 bytes up to 32768 x 6 shapes x 4 APIs", SHORT_INPUTS.len(), LITERALS.len()));
+    st.exhaustive_parts.push(format!("all console scripts of length <= {depth} over 8 step kinds x {} short inputs x 5 call shapes x (whole | one rotating cut); the same scripts x {} literal formatted writes; text runs of 2^k-2..2^k+2 bytes up to 32768 x 6 shapes x 4 APIs", SHORT_INPUTS.len(), LITERALS.len()));
     st
 }
 
 pub fn replay(case: &Case) -> Result<String, Viol> {
+    if case.kind == "c18-lock" {
+        let k = case.nums.first().copied().unwrap_or(0) as usize;
+        return match vcore::guarded(|| check_lock_case(k)) {
+            Ok(Ok(n)) => Ok(format!("{n} cells agree across lock()")),
+            Ok(Err((sig, msg))) => Err(Viol { case: case.clone(), msg, sig }),
+            Err(p) => Err(Viol { case: case.clone(), msg: format!("panicked: {p}"), sig: "c18:lock:panic".into() }),
+        };
+    }
     let input = case.bytes.first().cloned().unwrap_or_default();
     let nums = &case.nums;
-    let api = ALL_APIS[nums.first().copied().unwrap_or(1) as usize % 6];
+    let api = ALL_APIS[nums.first().copied().unwrap_or(1) as usize % 7];
     let styles = nums.get(1).copied().unwrap_or(1) != 0;
     let sl = nums.get(2).copied().unwrap_or(0) as usize;
     let script: Vec<Step> = nums.iter().skip(3).take(sl).map(|c| STEPS[*c as usize % 8]).collect();
